@@ -81,6 +81,39 @@ def variants(entry, rng, count, sweep=False):
     return res
 
 
+def period_like(entry):
+    """names of the integer parameters that look like window lengths (positive int default, not an enumeration)"""
+    return [n for n, d in entry["params"].items()
+            if n not in ENUM_INT and isinstance(d, int) and not isinstance(d, bool) and 0 < d <= 200]
+
+
+def boundary_variants(entry, values=(1, 2, 3)):
+    """the smallest window lengths: every period-like parameter set to 1, 2, 3 (an indicator that rejects a value raises
+    and is skipped for it); indicators with several periods additionally get each period alone at the boundary"""
+    names = period_like(entry)
+    out = []
+    for v in values:
+        if names:
+            out.append({n: v for n in names})
+    if len(names) > 1:
+        for n in names:
+            out.append({n: 1})
+            out.append({n: 2})
+    return out
+
+
+def slow_variant(entry, total=150):
+    """long windows (their sum about `total`): history reaches back far beyond a short window, so a result computed on the
+    wrong slice of the input is visibly different"""
+    names = period_like(entry)
+    if not names:
+        return None
+    base = sum(entry["params"][n] for n in names)
+    f = max(1.0, total / float(base))
+    kw = {n: max(2, int(entry["params"][n] * f)) for n in names}
+    return kw if min_len(entry, kw) < 200 else None
+
+
 def min_len(entry, kw):
     """shortest input the drivers feed: the sum of the period-like integer parameters + 2 (capped at 200).  Below that
     several kernels leave defined behaviour (as_strided with a negative shape, writes past the end); all they could
@@ -96,14 +129,40 @@ def min_len(entry, kw):
 
 
 # ------------------------------------------------------------------------------------------------ series
+def plateau_layout(n, seed):
+    """flat stretches [(start, end)) (0-based, end exclusive) of a 'plateau' series: 15-40 candles with
+    open == high == low == close at one price, embedded between moving parts"""
+    rng = random.Random("plateau-layout-%d-%d" % (n, seed))
+    out, i = [], rng.randint(35, 55)
+    while i + 45 < n:
+        ln = rng.randint(15, 40)
+        out.append((i, min(i + ln, n - 5)))
+        i = out[-1][1] + rng.randint(30, 60)
+    return out
+
+
+def plateau_cuts(n, seed, full=True):
+    """prefix lengths placed at the structural points of a plateau series: inside, exactly at the end of, and just after
+    every flat stretch (a prefix of length L contains candles 0..L-1), and the whole series"""
+    cuts = set()
+    for a, b in plateau_layout(n, seed):
+        cuts.update([a + 2, (a + b) // 2, b - 1, b, b + 1, b + 3] if full else [(a + b) // 2, b, b + 1])
+    cuts.add(n)
+    return sorted(k for k in cuts if 1 <= k <= n)
+
+
 def make_series(kind, n, seed, base=100, vol=50):
     """integer-lattice candles [ts, open, close, high, low, volume]; exact in float64"""
     rng = random.Random("%s-%d-%d" % (kind, n, seed))
     c = np.zeros((n, 6))
     p = base
+    flat_at = set()
+    if kind == "plateau":
+        for a, b in plateau_layout(n, seed):
+            flat_at.update(range(a, b))
     for i in range(n):
         o = p
-        if kind == "flat":
+        if kind == "flat" or i in flat_at:
             cl = h = l = o
             v = vol
         else:
